@@ -23,6 +23,9 @@ def run(chk, tier, seed, replay):
     chk.assumptions = ["TPS values away from the landmarks are not specified (uninterpreted symbol); interpolation tolerance 1e-8 x diameter"]
     if replay:
         case = json.load(open(replay))["case"]
+        if "compose_trace" in case:
+            from . import _comptrace
+            return _comptrace.replay(chk, case, "pinv")
         chk.case("replay")
         if "hist" in case and "targets" in case:
             from ..adapters import alignment as aad
@@ -47,6 +50,8 @@ def run(chk, tier, seed, replay):
         out, r = generate(chk, "pinv_depth2", "MC_Transforms", "MC_Transforms_c04b.cfg", s, workers=16)
         c03._run_file(chk, out, "pinv_depth2")
         run_cases(chk, "inv3", "TransCases", "MC_TransCases_c04.cfg", s, transcases.run_case)
+        from . import _comptrace
+        _comptrace.run(chk, s, "pinv", tier, seed)
         run_cases(chk, "warps", "Warps", "MC_Warps_c04.cfg", s, warps.run_case)
         # inverses interleaved with retargeting (the inverse must follow the CURRENT state of an alignment)
         from . import c08
